@@ -64,7 +64,7 @@ def match_known(prop, res, known):
     for k in known:
         if k.get('status') != 'known' or k['property'] != prop:
             continue
-        if not fnmatch.fnmatchcase(res['obligation'], k['obligation']):
+        if not re.fullmatch('.*'.join(re.escape(x) for x in k['obligation'].split('*')), res['obligation']):
             continue
         w = k.get('witness_pred')
         if w:
